@@ -12,6 +12,8 @@ Require Import Base Overlap TokenSeq Pattern PatternCost PatternImpls Tables_pat
 Require Import C01Len C01LenProofs Tables_rulebodies C01RuleBodies C01EndToEnd C01EndToEndProofs.
 Require Import C01Bodies Tables_bodyshapes C01BodiesProofs.
 Require Import C01Struct C01StructProofs.
+Require Import C01SpanOrder C01SpanOrderProofs.
+Require C02Gapped TokenInv.
 (* C02's lexer model and proofs (not imported: its token type has the same name as ours) *)
 Require Lexer LexerProofs Condense.
 
@@ -469,8 +471,8 @@ Check C01_repeated_words_slice_total : forall chunk, repeated_words_uses chunk =
 Print Assumptions C01_repeated_words_slice_total.
 
 (* the census of the struct rules (`impl Linter for`, 22 of them): 63 unwrap / expect / index / slice / panicking-macro /
-   Span::new sites in 17 rules, 5 rules without any; 49 sites are covered by theorems (3 above, 46 in phase 6 below:
-   struct_sites_proved names the theorem of each), the other 14 are NAMED in
+   Span::new sites in 17 rules, 5 rules without any; 58 sites are covered by theorems (3 above, 46 in phase 6 below, the 9
+   Span::new sites in phase 7: struct_sites_proved names the theorem of each), the other 5 are NAMED in
    Tables_bodyshapes.struct_rule_sites (regenerated on every run) and reached by search only.  The functions whose text
    the hand-written models follow are pinned.  A change in any of these numbers breaks this theorem. *)
 Theorem C01_struct_rule_census :
@@ -479,8 +481,8 @@ Theorem C01_struct_rule_census :
   List.length struct_rules_no_site + List.length rules_with_sites = List.length struct_rules_all /\
   List.length struct_rule_sites = 63 /\
   count_kind k_unwrap + count_kind k_expect + count_kind k_index + count_kind k_span_new + count_kind k_macro = 63 /\
-  List.length struct_sites_proved = 49 /\
-  List.length struct_rule_sites - List.length struct_sites_proved = 14.
+  List.length struct_sites_proved = 58 /\
+  List.length struct_rule_sites - List.length struct_sites_proved = 5.
 Proof. exact struct_rule_census. Qed.
 Check C01_struct_rule_census :
   pinned_bodies = expected_pinned /\
@@ -488,8 +490,8 @@ Check C01_struct_rule_census :
   List.length struct_rules_no_site + List.length rules_with_sites = List.length struct_rules_all /\
   List.length struct_rule_sites = 63 /\
   count_kind k_unwrap + count_kind k_expect + count_kind k_index + count_kind k_span_new + count_kind k_macro = 63 /\
-  List.length struct_sites_proved = 49 /\
-  List.length struct_rule_sites - List.length struct_sites_proved = 14.
+  List.length struct_sites_proved = 58 /\
+  List.length struct_rule_sites - List.length struct_sites_proved = 5.
 Print Assumptions C01_struct_rule_census.
 
 (* ================= phase 6: struct-rule sites guarded by the shape of the loop they sit in (Model/C01Struct.v) =================
@@ -732,6 +734,100 @@ Example C01_rule_bodies_nonvacuous :
    run_on_chunk (fun _ _ _ => Ok true) (fun _ _ _ => Ok true) (r_pat bad_row) ts [] = Ok [(0, 3)] /\
    use_run (slice ts 0 3) (UIdx 3) = Panic PIndex /\ use_run (slice ts 0 3) (UIdx 2) = Ok tt).
 Proof. exact (conj rule_bounds_examples static_test_rejects). Qed.
+
+(* ================= phase 7: the nine `Span::new(a.span.start, b.span.end)` sites of the struct rules (Model/C01SpanOrder.v) =================
+   Span::new(s, e) panics iff s > e.  At each site a and b are two tokens of one list (document or chunk), a strictly before b,
+   both of a kind the site has tested.  Premise span_ord k ts: the start offsets of the tokens that cover characters never
+   decrease (zero-width tokens anywhere, duplicates allowed — WEAKER than C02's OrderedDisjoint) and tokens of the tested kinds
+   `k` are never empty.  Chunks inherit it (last conjunct).  RepeatedWords, MergeWords x2, CurrencyPlacement, AdjectiveOfA,
+   InflectedVerbAfterTo, CommaFixes x3.  The premise is monitored on every document of the search (span_order_violations). *)
+Theorem C01_span_new_sites_total :
+  (forall chunk, span_ord (flag F_WORD) chunk -> repeated_words_spans chunk = Ok tt) /\
+  (forall doc, span_ord (flag F_WORD) doc -> merge_words_spans doc = Ok tt) /\
+  (forall is_punct is_num chunk, (forall t, is_punct t = true -> is_num t = false) ->
+     span_ord (cur_kind is_punct is_num) chunk -> currency_chunk is_punct is_num chunk = Ok tt) /\
+  (forall is_adj doc, span_ord (or_word is_adj) doc -> adjective_of_a_spans is_adj doc = Ok tt) /\
+  (forall is_prep doc, span_ord (or_word is_prep) doc -> inflected_spans is_prep doc = Ok tt) /\
+  (forall is_comma is_space doc, span_ord (or_kind is_space is_comma) doc -> comma_spans is_comma is_space doc = Ok tt) /\
+  (forall k f ts cs, span_ord k ts -> iter_by f ts = Ok cs -> Forall (span_ord k) cs).
+Proof. exact span_new_sites_total. Qed.
+Check C01_span_new_sites_total :
+  (forall chunk, span_ord (flag F_WORD) chunk -> repeated_words_spans chunk = Ok tt) /\
+  (forall doc, span_ord (flag F_WORD) doc -> merge_words_spans doc = Ok tt) /\
+  (forall is_punct is_num chunk, (forall t, is_punct t = true -> is_num t = false) ->
+     span_ord (cur_kind is_punct is_num) chunk -> currency_chunk is_punct is_num chunk = Ok tt) /\
+  (forall is_adj doc, span_ord (or_word is_adj) doc -> adjective_of_a_spans is_adj doc = Ok tt) /\
+  (forall is_prep doc, span_ord (or_word is_prep) doc -> inflected_spans is_prep doc = Ok tt) /\
+  (forall is_comma is_space doc, span_ord (or_kind is_space is_comma) doc -> comma_spans is_comma is_space doc = Ok tt) /\
+  (forall k f ts cs, span_ord k ts -> iter_by f ts = Ok cs -> Forall (span_ord k) cs).
+Print Assumptions C01_span_new_sites_total.
+
+(* the premise DISCHARGED for plain English, every text, any Unicode tables, any dictionary view: from C02's tiling theorem *)
+Theorem C01_plain_english_span_sites :
+  forall (abs : Lexer.token -> tok), (forall t, tspan (abs t) = Lexer.tspan t) ->
+  forall u s is_adj is_prep is_comma is_space is_punct is_num,
+    (forall t, is_punct t = true -> is_num t = false) ->
+    exists ts cs,
+      Condense.document_plain u s = Ok ts /\ iter_chunks (map abs ts) = Ok cs /\ concat cs = map abs ts /\
+      Forall (fun c => repeated_words_spans c = Ok tt /\ currency_chunk is_punct is_num c = Ok tt) cs /\
+      merge_words_spans (map abs ts) = Ok tt /\
+      adjective_of_a_spans is_adj (map abs ts) = Ok tt /\
+      inflected_spans is_prep (map abs ts) = Ok tt /\
+      comma_spans is_comma is_space (map abs ts) = Ok tt.
+Proof. exact plain_english_span_sites. Qed.
+Check C01_plain_english_span_sites :
+  forall (abs : Lexer.token -> tok), (forall t, tspan (abs t) = Lexer.tspan t) ->
+  forall u s is_adj is_prep is_comma is_space is_punct is_num,
+    (forall t, is_punct t = true -> is_num t = false) ->
+    exists ts cs,
+      Condense.document_plain u s = Ok ts /\ iter_chunks (map abs ts) = Ok cs /\ concat cs = map abs ts /\
+      Forall (fun c => repeated_words_spans c = Ok tt /\ currency_chunk is_punct is_num c = Ok tt) cs /\
+      merge_words_spans (map abs ts) = Ok tt /\
+      adjective_of_a_spans is_adj (map abs ts) = Ok tt /\
+      inflected_spans is_prep (map abs ts) = Ok tt /\
+      comma_spans is_comma is_space (map abs ts) = Ok tt.
+Print Assumptions C01_plain_english_span_sites.
+
+(* the premise follows from C02's property-level invariant TokInv (any front-end for which C02 establishes it: Markdown::parse
+   under md_contract, the Document passes on gapped vectors) when the tested kinds are not Newline / ParagraphBreak *)
+Theorem C01_span_ord_from_tokinv :
+  forall (abs : Lexer.token -> tok), (forall t, tspan (abs t) = Lexer.tspan t) ->
+  forall k : tok -> bool,
+    (forall t, k (abs t) = true ->
+       match Lexer.tkind_of t with Lexer.KNewline _ | Lexer.KParagraphBreak => False | _ => True end) ->
+    forall n ts, C02Gapped.TokInv n ts -> span_ord k (map abs ts).
+Proof. exact tokinv_span_ord. Qed.
+Check C01_span_ord_from_tokinv :
+  forall (abs : Lexer.token -> tok), (forall t, tspan (abs t) = Lexer.tspan t) ->
+  forall k : tok -> bool,
+    (forall t, k (abs t) = true ->
+       match Lexer.tkind_of t with Lexer.KNewline _ | Lexer.KParagraphBreak => False | _ => True end) ->
+    forall n ts, C02Gapped.TokInv n ts -> span_ord k (map abs ts).
+Print Assumptions C01_span_ord_from_tokinv.
+
+(* FINDING F34 (harper-typst emits the transform of a show rule before its selector): the tokens of  #show "the": [the]  are
+   [Word 14..17; Word 7..10], inside the 18-char text, neighbours in one chunk; the model of RepeatedWords' site panics on them
+   exactly as the implementation does (span.rs:19 `14 > 10`); the premise span_ord cannot be dropped *)
+Theorem C01_span_new_unordered_refuted :
+  exists chunk, repeated_words_spans chunk = Panic PSpanOrder /\ ~ span_ord (flag F_WORD) chunk /\
+                Forall (fun t => sstart (tspan t) <= send (tspan t) /\ send (tspan t) <= 18) chunk.
+Proof. exact span_new_unordered_refuted. Qed.
+Check C01_span_new_unordered_refuted :
+  exists chunk, repeated_words_spans chunk = Panic PSpanOrder /\ ~ span_ord (flag F_WORD) chunk /\
+                Forall (fun t => sstart (tspan t) <= send (tspan t) /\ send (tspan t) <= 18) chunk.
+Print Assumptions C01_span_new_unordered_refuted.
+
+(* non-vacuity: words with zero-width breaks at arbitrary offsets between them satisfy the premise and the sites return; a token
+   emitted twice is allowed; two words out of order, or an empty word, make the SAME checked Span::new fail *)
+Example C01_span_order_nonvacuous :
+  span_ord (flag F_WORD) [w 0 3; brk 9; w 4 7; brk 2] /\
+  repeated_words_spans [w 0 3; brk 9; w 4 7; brk 2] = Ok tt /\
+  merge_words_spans [w 0 3; brk 9; w 4 7; brk 2] = Ok tt /\
+  repeated_words_spans [w 4 7; w 0 3] = Panic PSpanOrder /\
+  merge_words_spans [w 4 7; brk 9; w 0 3] = Panic PSpanOrder /\
+  span_ord (flag F_WORD) [w 4 7; w 4 7] /\ repeated_words_spans [w 4 7; w 4 7] = Ok tt /\
+  ordered_cov 0 [w 4 7; w 2 2] /\ repeated_words_spans [w 4 7; w 2 2] = Panic PSpanOrder.
+Proof. exact span_order_examples. Qed.
 
 (* phase 3, (2): the end-to-end model on "I know  the how." (two spaces: one Space(2) token): seven tokens, the dictionary
    view taken from a table keyed by span start, word-whitespace-word matched twice; premises satisfiable (abs_of keeps spans) *)
